@@ -293,6 +293,23 @@ def roundToInt (num den : Nat) : Nat :=
       else parity
     (m - parity) + rounded
 
+/-- The part of `to_double` after the digit string has been read into the bignum: the value is `num0/den0`,
+    `un/ud` is the upper estimate `(d0+1)·10^msp` from which `right_shift_max` is computed. -/
+def toDoubleCore (num0 den0 un ud : Nat) : Dbl :=
+  -- right_shift_max = 1 + floor(log2((d0+1)·10^msp)) - DBL_MANT_DIG
+  let rsMax : Int := 1 + flog2Rat un ud - (DBL_MANT_DIG : Nat)
+  -- scale the significand
+  let sc : Nat × Nat × Int :=
+    if 0 < rsMax then (num0, den0 * pow2 rsMax.toNat, rsMax)
+    else if rsMax < 0 then
+      let r := shlLoop 64 num0 den0 0 rsMax
+      (r.1, den0, r.2)
+    else (num0, den0, 0)
+  let ml := mantLoop 64 sc.1 sc.2.1 sc.2.2
+  let mant := roundToInt ml.1 sc.2.1
+  -- account for overflow during rounding
+  if pow2 53 - 1 < mant then ldexpNat false 1 (ml.2 + (DBL_MANT_DIG : Nat)) else ldexpNat false mant ml.2
+
 /-- `to_double(ddigits, scale)` for a non-negative digit string (digit VALUES): the double it returns. -/
 def toDoubleBig (ds0 : List Nat) (scale : Int) : Dbl :=
   -- skip leading zeroes
@@ -316,22 +333,9 @@ def toDoubleBig (ds0 : List Nat) (scale : Int) : Dbl :=
       -- the value N·10^lsp as a fraction
       let num0 := if lsp ≥ 0 then N * pow10 lsp.toNat else N
       let den0 := if lsp ≥ 0 then 1 else pow10 (-lsp).toNat
-      -- right_shift_max = 1 + floor(log2((d0+1)·10^msp)) - DBL_MANT_DIG
       let un := if msp ≥ 0 then (d0 + 1) * pow10 msp.toNat else d0 + 1
       let ud := if msp ≥ 0 then 1 else pow10 (-msp).toNat
-      let rsMax : Int := 1 + flog2Rat un ud - (DBL_MANT_DIG : Nat)
-      -- scale the significand
-      let (num1, den1, exp1) : Nat × Nat × Int :=
-        if rsMax > 0 then (num0, den0 * pow2 rsMax.toNat, rsMax)
-        else if rsMax < 0 then
-          let (n, e) := shlLoop 64 num0 den0 0 rsMax
-          (n, den0, e)
-        else (num0, den0, 0)
-      let (num2, exp2) := mantLoop 64 num1 den1 exp1
-      let mant := roundToInt num2 den1
-      -- account for overflow during rounding
-      let (mant', exp3) : Nat × Int := if mant > pow2 53 - 1 then (1, exp2 + (DBL_MANT_DIG : Nat)) else (mant, exp2)
-      ldexpNat false mant' exp3
+      toDoubleCore num0 den0 un ud
 
 /-! ### to_digits — exact-arithmetic level -/
 
